@@ -127,7 +127,11 @@ class RedshiftParser(PostgresParser):
 
         if isinstance(func, exp.Count) and isinstance(func.this, exp.Distinct):
             return self.expression(exp.ApproxDistinct(this=seq_get(func.this.expressions, 0)))
-        if isinstance(func, exp.WithinGroup) and isinstance(func.this, exp.PercentileDisc):
+        if (
+            isinstance(func, exp.WithinGroup)
+            and isinstance(func.this, exp.PercentileDisc)
+            and func.expression
+        ):
             ordered = seq_get(func.expression.expressions, 0)
             return self.expression(
                 exp.ApproxQuantile(
